@@ -18,9 +18,9 @@ import (
 func init() {
 	Register(&Check{
 		Spec: core.Spec{ID: "C06", Level: "fault_enumeration",
-			Rule: "case = one sequential ingest history (good, empty and unmarshalable batches, limit-triggered and explicit flushes; DataStore = in-memory with/without Abort and with real or deferred deletion, or FileSystemDataStore; MetaStore = MemoryMetaStore behind the fault wrapper). The history is first run fault-free to record its n flush-path store calls (CreateFile, Write, Close, Update; Abort/TombstoneFile appear in failing runs), then re-run once per position i with call i failing before its effect, once more for Close with the effect applied and an error returned, then once per cleanup call (Abort/TombstoneFile) of each failing run, plus PRNG pairs. After every Flush and at the end the answers are compared with what match-all queries on this engine and on a fresh engine see. evaluations = runs; non-trivial = run in which a fault was reached; distinct = distinct (history, fault positions); exhaustive over single positions of each explored history",
+			Rule:        "case = one sequential ingest history (good, empty and unmarshalable batches, limit-triggered and explicit flushes; DataStore = in-memory with/without Abort and with real or deferred deletion, or FileSystemDataStore; MetaStore = MemoryMetaStore behind the fault wrapper). The history is first run fault-free to record its n flush-path store calls (CreateFile, Write, Close, Update; Abort/TombstoneFile appear in failing runs), then re-run once per position i with call i failing before its effect, once more for Close with the effect applied and an error returned, then once per cleanup call (Abort/TombstoneFile) of each failing run, plus PRNG pairs. After every Flush and at the end the answers are compared with what match-all queries on this engine and on a fresh engine see. evaluations = runs; non-trivial = run in which a fault was reached; distinct = distinct (history, fault positions); exhaustive over single positions of each explored history",
 			Assumptions: []string{"MetaStore.Update is atomic: an injected Update failure applies nothing", "single sequential client, so the store-call sequence of a history is deterministic (MaxBufferedTime = 1h: no time trigger)"},
-			Floors: map[string]int64{"histories": 6, "runs_with_fault_reached": 150, "acks_nil_checked": 300, "acks_error_checked": 100}},
+			Floors:      map[string]int64{"histories": 6, "runs_with_fault_reached": 150, "acks_nil_checked": 300, "acks_error_checked": 100}},
 		Cases: func(t string) int { return nQueries(t, 16, 320) },
 		Run:   runC06,
 	})
